@@ -1907,8 +1907,7 @@ func (this *decodingTask) decode(res *decodingTaskResult) {
 			if verifOn {
 				verifStep(verifSideDecode, this.currentBlockID, verifCancelStored, this.processedBlockID)
 			}
-		} else if atomic.LoadInt32(this.processedBlockID) == this.currentBlockID-1 {
-			atomic.StoreInt32(this.processedBlockID, this.currentBlockID)
+		} else if atomic.CompareAndSwapInt32(this.processedBlockID, this.currentBlockID-1, this.currentBlockID) {
 
 			if verifOn {
 				verifStep(verifSideDecode, this.currentBlockID, verifPublish, this.processedBlockID)
@@ -2012,7 +2011,9 @@ func (this *decodingTask) decode(res *decodingTaskResult) {
 
 	// After completion of the bitstream reading, increment the block id.
 	// It unblocks the task processing the next block (if any)
-	atomic.StoreInt32(this.processedBlockID, this.currentBlockID)
+	// Do not overwrite a cancel request stored by a previous task that failed
+	// after releasing the bitstream.
+	atomic.CompareAndSwapInt32(this.processedBlockID, this.currentBlockID-1, this.currentBlockID)
 
 	if verifOn {
 		verifStep(verifSideDecode, this.currentBlockID, verifPublish, this.processedBlockID)
